@@ -234,6 +234,9 @@ def check_c05(ctx):
     viols, cov = _steps_check(ctx, "C05", "bin", cfgs, sn, tn, hn, 0, dense_n=dense_n)
     cov["planner_entries_scanned"] = scanned
     cov["guided_configurations"] = min(len(suspects), 16)
+    from . import design, classprops
+    cov["design_level_generator_model"] = design.gen_binomial(ctx)
+    cov["conformance_drift"] = classprops.gen_drift(ctx, 12 if q else 20)      # diagnostic, never a violation
     return viols, cov, ["beyond the exhaustively searched box the Griewank-Walther theorem is assumed: "
                         "the check there is 'implementation = closed form = recurrence'"]
 
